@@ -46,6 +46,15 @@ def gen_case(rng):
     if fam == "3d":
         kinds = [rng.choice(T_KINDS), rng.choice(RC_KINDS), rng.choice(RC_KINDS)]
         case = sc.gen_case(rng, kinds=kinds, max_n=3)
+        if rng.random() < 0.5:
+            vs = [gen.Var.from_json(d) for d in case["vars"]]
+            tot = 1
+            for x in gen.raw_shape(vs):
+                tot *= x
+            case["measures"] = {
+                name: [gen.frac_str(Fraction(rng.randint(-30, 90), rng.choice([1, 2, 4]))) if rng.random() < 0.9 else None
+                       for _ in range(tot)]
+                for name in rng.sample(["mean", "sum", "stddev", "median"], rng.randint(1, 3))}
     elif fam == "ca3d":
         case = sc.gen_case(rng, kinds=["ca", rng.choice(RC_KINDS)], max_n=3)
     elif fam == "cubeset":
@@ -88,8 +97,9 @@ def _restrict(vars_, survey, k):
     out = []
     if T.is_array:
         sel = 0  # raw position of 'selected' for MR; for CA handled elsewhere
+        kk = T.valid_item_pos[k]
         for w, ans in survey:
-            if ans[0][k] == sel:
+            if ans[0][kk] == sel:
                 out.append((w, ans[1:]))
     else:
         pos = T.valid_cat_pos[k]
@@ -97,6 +107,27 @@ def _restrict(vars_, survey, k):
             if ans[0][0] == pos:
                 out.append((w, ans[1:]))
     return out
+
+
+def _payload(data):
+    return [{"?": -1} if x is None else gen.num(Fraction(x)) for x in data]
+
+
+def _subtensor(flat, shape, prefix):
+    """flat row-major data of tensor[prefix...]"""
+    import itertools
+    rest = shape[len(prefix):]
+    out = []
+    for ix in itertools.product(*[range(n) for n in rest]):
+        full = list(prefix) + list(ix)
+        pos = 0
+        for n, i in zip(shape, full):
+            pos = pos * n + i
+        out.append(flat[pos])
+    return out
+
+
+NUMERIC = {"mean": "means", "sum": "sums", "stddev": "stddev", "median": "medians"}
 
 
 def _get(obj, name):
@@ -122,20 +153,25 @@ def evaluate(case, louts, ctx):
     pop = case.get("population", 0)
     w = case["weighted"]
     if fam == "3d":
-        resp = gen.cube_response(vars_, survey, w)
+        meas = case.get("measures") or {}
+        resp = gen.cube_response(vars_, survey, w, extra_measures={n: _payload(d) for n, d in meas.items()} or None)
         cube = Cube(resp, population=pop)
         T = vars_[0]
-        npart = len(T.items) if T.is_array else len(T.valid_cat_pos)
+        shape3 = gen.raw_shape(vars_)
+        npart = len(T.valid_item_pos) if T.is_array else len(T.valid_cat_pos)
         parts = common.call_impl(lambda: len(cube.partitions))
         if parts != npart:
             return [{"kind": "spec", "locus": "npartitions", "detail": "%r != %r valid elements" % (parts, npart)}], None
         firsts = []
         for k in range(npart):
             rs = _restrict(vars_, survey, k)
-            c2 = Cube(gen.cube_response(vars_[1:], rs, w), population=pop)
+            prefix = [T.valid_item_pos[k], 0] if T.is_array else [T.valid_cat_pos[k]]
+            sub = {n: _payload(_subtensor(d, shape3, prefix)) for n, d in meas.items()}
+            c2 = Cube(gen.cube_response(vars_[1:], rs, w, extra_measures=sub or None), population=pop)
             # population estimates scale by the table-restricted total in a 2-D cube but by the whole
             # 3-D total? -> both are proportions x population; compared only through proportions
             ms = [m for m in SLICE_MEASURES if m != "population_counts"]
+            ms = ms + [NUMERIC[n] for n in meas]
             _compare_parts(findings, "partition3d", cube.partitions[k], c2.partitions[0], ms, "table element %d" % k)
             firsts.append(repr(_get(cube.partitions[k], "counts")))
             if louts:
@@ -154,14 +190,14 @@ def evaluate(case, louts, ctx):
         ca, X = vars_
         resp = gen.cube_response(vars_, survey, w)
         cube = Cube(resp, population=pop)
-        npart = len(ca.items)
+        npart = len(ca.valid_item_pos)
         parts = common.call_impl(lambda: len(cube.partitions))
         if parts != npart:
             return [{"kind": "spec", "locus": "npartitions.ca", "detail": "%r != %r items" % (parts, npart)}], None
         firsts = []
         for k in range(npart):
             cv = gen.Var("cat", "cak", cats=copy.deepcopy(ca.cats))
-            rs = [(wt, [[ans[0][k]], ans[1]]) for wt, ans in survey]
+            rs = [(wt, [[ans[0][ca.valid_item_pos[k]]], ans[1]]) for wt, ans in survey]
             c2 = Cube(gen.cube_response([cv, X], rs, w), population=pop)
             ms = [m for m in SLICE_MEASURES if m not in ("population_counts",)]
             _compare_parts(findings, "partition-ca-item", cube.partitions[k], c2.partitions[0], ms, "CA item %d" % k)
@@ -192,7 +228,7 @@ def evaluate(case, louts, ctx):
         r0 = gen.cube_response([ca], [(wt, [ans[0]]) for wt, ans in survey], w)
         r1 = gen.cube_response([ca, X], survey, w)
         cs = CubeSet([copy.deepcopy(r0), copy.deepcopy(r1)], [None, None], pop, 0)
-        npart = len(ca.items)
+        npart = len(ca.valid_item_pos)
         psets = common.call_impl(lambda: len(cs.partition_sets))
         if psets != npart:
             findings.append({"kind": "spec", "locus": "ca0th.partition_sets.count", "detail": "%r != %r" % (psets, npart)})
@@ -201,10 +237,11 @@ def evaluate(case, louts, ctx):
             for k in range(npart):
                 strand, sl = cs.partition_sets[k]
                 cv = gen.Var("cat", ca.alias, cats=copy.deepcopy(ca.cats))
-                uni = Cube(gen.cube_response([cv], [(wt, [[ans[0][k]]]) for wt, ans in survey], w), population=pop).partitions[0]
+                kk = ca.valid_item_pos[k]
+                uni = Cube(gen.cube_response([cv], [(wt, [[ans[0][kk]]]) for wt, ans in survey], w), population=pop).partitions[0]
                 ms = [m for m in STRAND_MEASURES]
                 _compare_parts(findings, "ca0th.strand", strand, uni, ms, "sub-variable %d" % k)
-                c2 = Cube(gen.cube_response([cv, X], [(wt, [[ans[0][k]], ans[1]]) for wt, ans in survey], w), population=pop)
+                c2 = Cube(gen.cube_response([cv, X], [(wt, [[ans[0][kk]], ans[1]]) for wt, ans in survey], w), population=pop)
                 _compare_parts(findings, "ca0th.slice", sl, c2.partitions[0],
                                [m for m in SLICE_MEASURES if m != "population_counts"], "sub-variable %d" % k)
                 firsts.append(repr(_get(strand, "counts")))
